@@ -214,6 +214,7 @@ func init() {
 		jobs = append(jobs, vx.Job{Scenario: "panel.valve.sched", Bound: b(2, 3), Weight: 4})
 		jobs = append(jobs, vx.Job{Scenario: "panel.valve.sched", Params: vx.P("round", "1", "conns", "2"), Bound: b(2, 3), Weight: 5})
 		jobs = append(jobs, vx.Job{Scenario: "panel.valve.sched", Params: vx.P("lastclose", "1", "conns", "2"), Bound: b(2, 3), Weight: 5})
+		jobs = append(jobs, vx.Job{Scenario: "panel.valve.sched", Params: vx.P("lastclose", "1", "conns", "3"), Bound: b(1, 2), Weight: 6})
 		for i := range jobs {
 			jobs[i].BudgetS = b(100, 900)
 		}
